@@ -118,8 +118,13 @@ int vnacal_new_set_m_error(vnacal_new_t *vnp,
 		return -1;
 	    }
 	}
-	fmin = vnp->vn_frequency_vector[0];
-	fmax = vnp->vn_frequency_vector[vnp->vn_frequencies - 1];
+	if (vnp->vn_frequencies < 1) {
+	    fmin = frequency_vector[0];
+	    fmax = frequency_vector[frequencies - 1];
+	} else {
+	    fmin = vnp->vn_frequency_vector[0];
+	    fmax = vnp->vn_frequency_vector[vnp->vn_frequencies - 1];
+	}
 	lower = (1.0 + VNACAL_F_EXTRAPOLATION) * fmin;
 	upper = (1.0 - VNACAL_F_EXTRAPOLATION) * fmax;
 	if (frequency_vector[0] > lower ||
